@@ -25,6 +25,8 @@ from vlib import *  # noqa
 PID = 'C15'
 NS = list(range(0, 17))
 EXTRA_NS = [17, 31, 32, 33, 64]
+# lengths around a one-byte counter and well beyond: failing positions sampled (first, around 128 and 256, last)
+BIG_NS = [255, 256, 257, 1000]
 NEST = [(3, 2), (2, 3), (2, 2), (1, 1), (4, 0), (0, 4)]
 
 
@@ -51,6 +53,12 @@ def gen_cases(tier, seed):
     for n in NS + EXTRA_NS:
         for tag, s in scripts_for(n):
             cases.append(('a%d_%s' % (n, tag), 'arr', [n, s], n))
+    for n in BIG_NS:
+        cases.append(('a%d_ok' % n, 'arr', [n, 'o' * n], n))
+        for j in sorted(set(x for x in (0, 1, 127, 128, 254, 255, 256, 257, n - 2, n - 1) if 0 <= x < n)):
+            for m in 'EPI':
+                cases.append(('a%d_%s@%d' % (n, m, j), 'arr', [n, 'o' * j + m + 'o' * (n - 1 - j)], n))
+            cases.append(('a%d_eof@%d' % (n, j), 'arr', [n, 'o' * j], n))
     for (o, i) in NEST:
         for tag, s in scripts_for(o * i):
             cases.append(('n%dx%d_%s' % (o, i, tag), 'arrnest', [o, i, s], o * i))
@@ -73,7 +81,7 @@ def gen_cases(tier, seed):
 def u8_cases(seed):
     rng = random.Random(seed * 31 + 7)
     out = []
-    for n in NS + EXTRA_NS:
+    for n in NS + EXTRA_NS + BIG_NS:
         for tag, ln in (('exact', n), ('tail', n + 3), ('short', n - 1), ('empty', 0)):
             if ln < 0:
                 continue
